@@ -1465,6 +1465,22 @@ def rule_body(ctx):
             else:
                 dd.add(bad('WIRE-1', fs + '/QUERY', 'QUERY is not the verbatim query text: %s' % P.show(t, 1, 5)[:160], loc,
                            'the document sent differs from the source document'))
+    # the operation struct: declared by the generator exactly in CLI/library-file mode (the derive's input already has it)
+    ustructs = [it for it in items if it.kind == 'struct' and not it.fields]
+    if not ustructs:
+        dd.add(bad('BODY-STRUCT', fs + '/struct', 'no production declares the operation struct', loc, 'CLI output lacks `struct Op;`: it does not compile'))
+    for it in ustructs[:1]:
+        own = [c for c in it.conds if c[0] in ('match', 'if') and c[1] is not None and
+               'GraphQLClientCodegenOptions.mode' in TM.fields_in(c[1]) and c[1][0] == 'field']
+        other = [c for c in it.conds if c[0] in ('match', 'if') and c[1] is not None and c not in own and c[1][0] != 'tuple' and
+                 any(f_.startswith('GraphQLClientCodegenOptions.') for f_ in TM.fields_in(c[1]))]
+        cli = any(c[0] == 'match' and c[2][0] == 'ctor' and c[2][1].endswith('CodegenMode::Cli') for c in own)
+        if cli and not other:
+            dd.add(ok('BODY-STRUCT', fs + '/struct', 'the operation struct is declared iff mode == Cli', ctx.site_loc(it.site)))
+        else:
+            dd.add(bad('BODY-STRUCT', fs + '/struct', 'the operation struct is declared under %s, not exactly under mode == Cli' %
+                       (conds_text(tuple(c for c in it.conds if c[0] != 'rep'))[:160] or 'no condition'), ctx.site_loc(it.site),
+                       'CLI output for a selected operation lacks its struct (or the derive declares it twice)'))
     # the impl
     gq = None
     for im in impls:
